@@ -102,6 +102,21 @@ Theorem C42_history_pred : forall d split use_split qs,
 Proof. exact history_pred. Qed.
 Print Assumptions C42_history_pred.
 
+(* native-histogram samples: a model stream holds one kind of samples; series s of the code is
+   the pair of model series 2s (floats) and 2s+1 (histograms). The theorems above quantify over
+   all series ids, so they cover both kinds; this is the statement for such paired descriptions,
+   with the source fact that SliceSamples and SliceHistogram both cut with `> minTs` *)
+Definition both_kinds (l : list (Z * list (Z * Z) * list (Z * Z))) : list series_desc :=
+  flat_map (fun x => [(2 * fst (fst x), snd (fst x)); (2 * fst (fst x) + 1, snd x)]) l.
+
+Theorem C42_history_float_and_histogram : forall l split use_split qs,
+  incr (map (fun x => fst (fst x)) l) -> 0 < split -> Forall query_ok qs ->
+  slice_keeps_equal = false /\
+  exists rs c, history (f_of (both_kinds l)) (map fst (both_kinds l)) split use_split [] qs = Some (rs, c)
+    /\ pred_ok (CHist split use_split (both_kinds l) qs rs c) = true.
+Proof. exact history_kinds. Qed.
+Print Assumptions C42_history_float_and_histogram.
+
 (* ---- refutations of the code before the repairs (replayed on the real code: corpus/C42) ---- *)
 
 (* series 0 is born exactly where the cached extent starts; series 1 exists all along.
